@@ -13,6 +13,8 @@
 EXTENDS Naturals, Sequences, FiniteSets, TLC
 
 Terminal  == {"Error", "AbortDone", "RemoteAbortDone", "Rejected"}
+(* reports that are not progress of the handshake: the terminal outcomes and the entry into the abort exit *)
+NoProgress == Terminal \cup {"Abort"}
 PostHello == {"HelloOk", "ServerInit", "ClientInit", "ServerListenProposal", "ServerListenConfirm",
               "ClientListenChoice", "ClientOk", "ServerOk", "PinCheckInit", "PinCheckListen",
               "PinCheckOk", "AccessMethodsRequest", "Approved", "Complete"}
@@ -47,8 +49,8 @@ OnEvent(role, stored, act, a, e, bad) ==
     CASE e.k = "rep" ->
             LET S  == e.v
                 b1 == IF ~Allowed(role, a.last, S) THEN bad \cup {<<"C04", "edge-not-in-graph", a.last, S>>} ELSE bad
-                b2 == IF a.term /\ S \notin Terminal THEN b1 \cup {<<"C04", "progress-after-terminal", a.last, S>>} ELSE b1
-                b3 == IF a.closed /\ ~a.term /\ S \notin Terminal THEN b2 \cup {<<"C04", "progress-after-close", a.last, S>>} ELSE b2
+                b2 == IF a.term /\ S \notin NoProgress THEN b1 \cup {<<"C04", "progress-after-terminal", a.last, S>>} ELSE b1
+                b3 == IF a.closed /\ ~a.term /\ S \notin NoProgress THEN b2 \cup {<<"C04", "progress-after-close", a.last, S>>} ELSE b2
                 b4 == IF S \in PostHello /\ ~a.trust THEN b3 \cup {<<"C01", "posthello-untrusted", a.last, S>>} ELSE b3
             IN  [acc |-> [a EXCEPT !.last = S, !.term = @ \/ S \in Terminal, !.compl = @ \/ S = "Complete"], bad |-> b4]
       [] e.k = "sent" ->
